@@ -293,6 +293,13 @@ def scala_scan(ctx, rep, T):
     txt = json.dumps(f['lets']) + json.dumps(f['tail'])
     for what, needle in (('alias targets', 'aliases'), ('struct fields', 'structs'), ('enum variants', 'enums')):
         rep.check(f'"{needle}"' in txt, 'H3', f'scala:scan-covers:{what}', 'scanned', f'scala: the scan never looks at {what}', site)
+    # ... and of the enum variants every type-carrying payload: the tuple payload and the fields of struct variants (their helper
+    # case classes are printed with the same type printer, so an unsigned field there needs the alias block just as well)
+    if coverage.find_matches(f, 'RustEnumVariant'):
+        coverage.check_recursion(rep, 'H3', ctx, f, 'RustEnumVariant', [], 'scala:scan-variants', needle='RustType|RustField', uses_ok=True)
+    else:
+        vm = [x for x in vt.walk(f.get('tail')) if x.get('k') == 'match'] + [x for l_ in f['lets'] for x in vt.walk(l_.get('v')) if x.get('k') == 'match']
+        rep.check(False, 'H3', 'scala:scan-variants', '', 'scala: unsigned_integer_used has no match over RustEnumVariant: the payload types of tuple and struct variants are not scanned', site)
 
 
 def python_translation_keys(ctx, rep, T):
